@@ -35,11 +35,15 @@ structure Obj where
   proto : Option Nat
   kind : OKind
   dontEnum : List String := []       -- names of the own properties whose [[Enumerable]] is false
+  readOnly : List String := []       -- names of the own properties whose [[Writable]] is false (beyond `canPut`'s fixed ones)
+  dontDelete : List String := []     -- names of own properties whose [[Configurable]] is false because they are
+                                     -- bindings of global code (§10.5 with configurableBindings = false)
 
 structure Env where
   vars : List (String × V)
   outer : Option Nat
   immut : List String := []          -- immutable bindings (the name of a named function expression)
+  deletable : List String := []      -- bindings created with configurableBindings = true (eval code, §10.4.2)
   obj : Option Nat := none           -- §10.2.1.2: the binding object of an object environment record
                                      -- created by `with` (provideThis = true); `vars` is then unused
 
@@ -194,6 +198,25 @@ def bindIn (σ : St) (i : Nat) (x : String) (v : V) (overwrite : Bool) : St :=
       | some _ => if overwrite then σ.setEnv i { e with vars := updateA x v e.vars } else σ
       | none => σ.setEnv i { e with vars := e.vars ++ [(x, v)] }
 
+/-- §10.5 for global and eval code: like `bindIn`, and a binding that is CREATED here is deletable iff the code is
+    eval code (configurableBindings): recorded in `Env.deletable` for a declarative record, by absence from
+    `Obj.dontDelete` for the global object -/
+def bindInCode (σ : St) (i : Nat) (x : String) (v : V) (overwrite : Bool) (del : Bool) : St :=
+  if i = 0 then
+    match σ.obj? gObj with
+    | some g =>
+      match lookupA x g.props with
+      | some _ => if overwrite then σ.setObj gObj { g with props := updateA x v g.props } else σ
+      | none => σ.setObj gObj { g with props := g.props ++ [(x, v)],
+                                       dontDelete := if del then g.dontDelete else g.dontDelete ++ [x] }
+    | none => σ
+  else match σ.envs[i]? with
+    | none => σ
+    | some e =>
+      match lookupA x e.vars with
+      | some _ => if overwrite then σ.setEnv i { e with vars := updateA x v e.vars } else σ
+      | none => σ.setEnv i { e with vars := e.vars ++ [(x, v)], deletable := if del then e.deletable ++ [x] else e.deletable }
+
 def isCallable (σ : St) : V → Bool
   | .ref a => match σ.obj? a with
     | some o => match o.kind with
@@ -294,7 +317,7 @@ def canPut (σ : St) : Nat → Nat → String → Bool
     | none => true
     | some o =>
       match lookupA p o.props with
-      | some _ => !(p == "length" && isFnKind o.kind)
+      | some _ => !(p == "length" && isFnKind o.kind) && !o.readOnly.contains p
       | none => match o.proto with
         | some q => canPut σ n q p
         | none => true
@@ -352,8 +375,9 @@ def delProp (σ : St) (base : V) (p : String) : Res V :=
     match σ.obj? a with
     | none => .ok (.bool true) σ
     | some o =>
-      if fixedProp o.kind p && (lookupA p o.props).isSome then .ok (.bool false) σ else
+      if (fixedProp o.kind p || o.dontDelete.contains p) && (lookupA p o.props).isSome then .ok (.bool false) σ else
       .ok (.bool true) (σ.setObj a { o with props := removeA p o.props, kind := unmapKind o.kind p,
+                                            readOnly := o.readOnly.filter (· != p),
                                             dontEnum := o.dontEnum.filter (· != p) })
   | _ => .ok (.bool true) σ
 
@@ -502,6 +526,60 @@ def bindDecls : Nat → FDecls → Nat → Ctx → St → Res Unit
     let (fv, σ1) := mkFunc σ f c.env
     bindDecls n ds venv c (bindIn σ1 venv name fv true)
 
+/-- the object on the prototype chain from `a` that has the own property `p` ([[GetProperty]], §8.12.2) -/
+def propOwner (σ : St) : Nat → Nat → String → Option Nat
+  | 0, _, _ => none
+  | n+1, a, p =>
+    match σ.obj? a with
+    | none => none
+    | some o =>
+      match lookupA p o.props with
+      | some _ => some a
+      | none => match o.proto with
+        | some q => propOwner σ n q p
+        | none => none
+
+/-- [[Writable]] false -/
+def isReadOnly (o : Obj) (p : String) : Bool := (p == "length" && isFnKind o.kind) || o.readOnly.contains p
+
+/-- §10.5 step 5.e for a name the global object already has (own or inherited): iii. a configurable property is
+    redefined as {undefined, writable, enumerable, configurable: configurableBindings} on the global object itself;
+    iv. a non-configurable one that is read-only or not enumerable is a TypeError; `none` = that TypeError -/
+def redeclareGlobal (σ : St) (name : String) (del : Bool) : Option St :=
+  match propOwner σ (σ.heap.length + 1) gObj name with
+  | none => some σ
+  | some ow =>
+    match σ.obj? ow, σ.obj? gObj with
+    | some o, some g =>
+      if !(fixedProp o.kind name || o.dontDelete.contains name) then
+        let props' := match lookupA name g.props with
+          | some _ => updateA name .undef g.props
+          | none => g.props ++ [(name, .undef)]
+        some (σ.setObj gObj { g with props := props', dontEnum := g.dontEnum.filter (· != name),
+                                      readOnly := g.readOnly.filter (· != name),
+                                      dontDelete := if del then g.dontDelete.filter (· != name)
+                                                    else name :: g.dontDelete.filter (· != name) })
+      else if isReadOnly o name || o.dontEnum.contains name then none
+      else some σ
+    | _, _ => some σ
+
+/-- function declarations of global / eval code (§10.5 step 5 with configurableBindings = `del`) -/
+def bindDeclsCode : Nat → FDecls → Nat → Ctx → St → Bool → Res Unit
+  | 0, _, _, _, _, _ => .fuel
+  | _+1, .nil, _, _, σ, _ => .ok () σ
+  | n+1, .cons name f ds, venv, c, σ, del =>
+    let (fv, σ1) := mkFunc σ f c.env
+    if venv = 0 && hasProp σ1 (σ1.heap.length + 1) gObj name then
+      match redeclareGlobal σ1 name del with
+      | none => throwErr σ1 "TypeError"
+      | some σ2 =>
+        -- step 5.f SetMutableBinding = [[Put]] on the global object
+        match putProp σ2 (.ref gObj) name fv with
+        | .ok _ σ3 => bindDeclsCode n ds venv c σ3 del
+        | .throw t σ3 => .throw t σ3
+        | .fuel => .fuel
+    else bindDeclsCode n ds venv c (bindInCode σ1 venv name fv true del) del
+
 /-- §10.5 declaration binding instantiation for function code, in the order of the standard: step 4 the
     parameters, step 5 the function declarations, steps 6–7 the arguments object unless `arguments` is already
     bound, step 8 the variable declarations.  `i` = the new declarative environment, `fv` = the function object. -/
@@ -554,7 +632,60 @@ def evalE : Nat → FE → Ctx → St → Res V
                 let props' := match lookupA p ob.props with
                   | some _ => updateA p v ob.props
                   | none => ob.props ++ [(p, v)]
-                .ok b (σ2.setObj a { ob with props := props', dontEnum := p :: ob.dontEnum.filter (· != p) })
+                -- §10.6 [[DefineOwnProperty]] step 5.b.i: the value also goes to a joined parameter
+                let σ3 : St := mappedAssign σ2 ob.kind p v
+                .ok b (σ3.setObj a { ob with props := props', dontEnum := p :: ob.dontEnum.filter (· != p),
+                                             readOnly := ob.readOnly.filter (· != p) })
+              | none => .ok b σ2)
+           | _ => throwErr σ2 "TypeError")
+        | r => r
+      | r => r
+    | .defFix o p e1 =>
+      -- §15.2.3.6 with the complete data descriptor {value, writable: false, enumerable: false, configurable: false}
+      match evalE n o c σ with
+      | .ok b σ1 => match evalE n e1 c σ1 with
+        | .ok v σ2 =>
+          (match b with
+           | .ref a =>
+             (match σ2.obj? a with
+              | some ob =>
+                let nonconf := (fixedProp ob.kind p || ob.dontDelete.contains p) && (lookupA p ob.props).isSome
+                -- §8.12.9 step 7.b: [[Enumerable]] of a non-configurable property cannot change;
+                -- step 10.a.ii: nor the value of one that is also read-only
+                if nonconf && !ob.dontEnum.contains p then throwErr σ2 "TypeError" else
+                if nonconf && isReadOnly ob p && lookupA p ob.props != some v then throwErr σ2 "TypeError" else
+                let props' := match lookupA p ob.props with
+                  | some _ => updateA p v ob.props
+                  | none => ob.props ++ [(p, v)]
+                let σ3 : St := mappedAssign σ2 ob.kind p v
+                .ok b (σ3.setObj a { ob with props := props', kind := unmapKind ob.kind p,
+                                             dontEnum := p :: ob.dontEnum.filter (· != p),
+                                             readOnly := p :: ob.readOnly.filter (· != p),
+                                             dontDelete := p :: ob.dontDelete.filter (· != p) })
+              | none => .ok b σ2)
+           | _ => throwErr σ2 "TypeError")
+        | r => r
+      | r => r
+    | .defRO o p e1 =>
+      -- §15.2.3.6 with the complete data descriptor {value, writable: false, enumerable: true, configurable: true}
+      match evalE n o c σ with
+      | .ok b σ1 => match evalE n e1 c σ1 with
+        | .ok v σ2 =>
+          (match b with
+           | .ref a =>
+             (match σ2.obj? a with
+              | some ob =>
+                -- §8.12.9 step 7.a: a non-configurable property cannot become configurable
+                if (fixedProp ob.kind p || ob.dontDelete.contains p) && (lookupA p ob.props).isSome then throwErr σ2 "TypeError" else
+                let props' := match lookupA p ob.props with
+                  | some _ => updateA p v ob.props
+                  | none => ob.props ++ [(p, v)]
+                -- §10.6 [[DefineOwnProperty]] step 5.b: i. the value goes to a joined parameter, ii. [[Writable]] false
+                -- removes the index from the parameter map
+                let σ3 : St := mappedAssign σ2 ob.kind p v
+                .ok b (σ3.setObj a { ob with props := props', kind := unmapKind ob.kind p,
+                                             dontEnum := ob.dontEnum.filter (· != p),
+                                             readOnly := p :: ob.readOnly.filter (· != p) })
               | none => .ok b σ2)
            | _ => throwErr σ2 "TypeError")
         | r => r
@@ -600,6 +731,22 @@ def evalE : Nat → FE → Ctx → St → Res V
       match evalE n o c σ with
       | .ok b σ1 => delProp σ1 b p
       | r => r
+    | .delV x =>
+      -- §11.4.1 on an identifier reference: unresolvable → true; object record → [[Delete]] on the binding object;
+      -- declarative record → DeleteBinding (§10.2.1.1.5): only bindings made by eval code can go
+      (match envResolve σ (σ.envs.length + 1) c.env x with
+       | none => .ok (.bool true) σ
+       | some i =>
+         if i = 0 then delProp σ (.ref gObj) x
+         else match σ.envs[i]? with
+           | none => .ok (.bool true) σ
+           | some e =>
+             match e.obj with
+             | some a => delProp σ (.ref a) x
+             | none =>
+               if e.deletable.contains x then
+                 .ok (.bool true) (σ.setEnv i { e with vars := removeA x e.vars, deletable := e.deletable.filter (· != x) })
+               else .ok (.bool false) σ)
     | .delE o k =>
       match evalE n o c σ with
       | .ok b σ1 => match evalE n k c σ1 with
@@ -713,18 +860,18 @@ def evalE : Nat → FE → Ctx → St → Res V
       | r => r
     | .evalD vs ds body =>
       -- §10.4.2 direct eval: the caller's this, lexical and variable environments
-      runCode n vs ds body c σ
+      runCode n vs ds body c σ true
     | .evalI vs ds body =>
       -- indirect eval: the global environment, this = the global object
-      runCode n vs ds body { env := 0, venv := 0, this := .ref gObj } σ
+      runCode n vs ds body { env := 0, venv := 0, this := .ref gObj } σ true
 
 /-- §10.5 declaration binding instantiation for eval/global code, then the body; value = completion value -/
-def runCode : Nat → List String → FDecls → FSs → Ctx → St → Res V
-  | 0, _, _, _, _, _ => .fuel
-  | n+1, vs, ds, body, c, σ =>
-    match bindDecls n ds c.venv { c with env := c.env } σ with
+def runCode : Nat → List String → FDecls → FSs → Ctx → St → Bool → Res V
+  | 0, _, _, _, _, _, _ => .fuel
+  | n+1, vs, ds, body, c, σ, isEval =>
+    match bindDeclsCode n ds c.venv { c with env := c.env } σ isEval with
     | .ok _ σ1 =>
-      let σ2 := vs.foldl (fun s x => bindIn s c.venv x .undef false) σ1
+      let σ2 := vs.foldl (fun s x => bindInCode s c.venv x .undef false isEval) σ1
       match evalSs n body c σ2 with
       | .ok (.ret v) σ3 => .ok v σ3
       | .ok comp σ3 => .ok (comp.val.getD .undef) σ3       -- (break/continue cannot leave a program)
@@ -959,6 +1106,31 @@ def evalS : Nat → FS → Ctx → List String → St → Res Comp
            | .fuel => .fuel)
       | .throw t σ1 => .throw t σ1
       | .fuel => .fuel
+    | .forInI x ie oe b =>
+      -- §12.6.4, second production with an initialiser: step 1 evaluates the VariableDeclarationNoIn (§12.2: the
+      -- reference, the initialiser, PutValue) ONCE, before the object expression; then as above
+      let r := envResolve σ (σ.envs.length + 1) c.env x
+      match evalE n ie c σ with
+      | .ok iv σ0 =>
+        (match putIdent σ0 r x iv with
+         | .ok _ σ0' =>
+           (match evalE n oe c σ0' with
+            | .ok v σ1 =>
+              (match v with
+               | .undef => .ok (.normal none) σ1
+               | .null => .ok (.normal none) σ1
+               | _ =>
+                 match toObject σ1 v with
+                 | .ok a σ2 =>
+                   evalForIn n x b c ls σ2 (enumKeys σ2 (σ2.heap.length + 1) a []) none
+                 | .throw t σ2 => .throw t σ2
+                 | .fuel => .fuel)
+            | .throw t σ1 => .throw t σ1
+            | .fuel => .fuel)
+         | .throw t σ0' => .throw t σ0'
+         | .fuel => .fuel)
+      | .throw t σ0 => .throw t σ0
+      | .fuel => .fuel
     | .label l s1 =>
       -- §12.12
       match evalS n s1 c (l :: ls) σ with
@@ -1032,6 +1204,6 @@ end
 
 /-- §10.4.1 global code: bindings on the global object, this = the global object -/
 def runProgram (n : Nat) (vs : List String) (ds : FDecls) (body : FSs) : Res V :=
-  runCode n vs ds body { env := 0, venv := 0, this := .ref gObj } initSt
+  runCode n vs ds body { env := 0, venv := 0, this := .ref gObj } initSt false
 
 end OttoVerif.C01.Fn
